@@ -517,6 +517,25 @@ def _alarm(signum, frame):
     raise NoAnswer()
 
 
+class cpu_guard:
+    """`with cpu_guard(4.0): …` - NoAnswer is raised inside the block when it uses more CPU time than that."""
+
+    def __init__(self, seconds):
+        self.seconds = seconds
+
+    def __enter__(self):
+        import signal
+        self.old = signal.signal(signal.SIGVTALRM, _alarm)
+        signal.setitimer(signal.ITIMER_VIRTUAL, self.seconds)
+        return self
+
+    def __exit__(self, *exc):
+        import signal
+        signal.setitimer(signal.ITIMER_VIRTUAL, 0)
+        signal.signal(signal.SIGVTALRM, self.old)
+        return False
+
+
 class Runner:
     """One mounted `cherrypy.Application` for a built tree; `get()` sends one request through WSGI."""
 
@@ -609,6 +628,14 @@ class Runner:
             return {'status': 0, 'ran': [[p, a] for p, a, kw in self.built.journal], 'kwargs': [], 'allow': None,
                     'path_info': self.seen_path[0] if self.seen_path else None, 'body': b'', 'hang': True,
                     'disp_log': list(self.built.disp_log)}
+        except Exception as e:
+            # the WSGI application let an exception out (it never does on the unchanged tree): an observation
+            got['status'] = '599 %s' % type(e).__name__
+            got.setdefault('headers', [])
+            body = b''
+        if 'status' not in got:
+            got['status'] = '598 start_response was not called'
+            got.setdefault('headers', [])
         allow = None
         for k, v in got.get('headers', []):
             if k.lower() == 'allow':
